@@ -33,7 +33,7 @@ const (
 	EPADT       = 5
 	EEcho       = 6
 	EDiscovery  = 7  // params [sid_live]
-	ESession    = 8  // params [sid_live]
+	ESession    = 8  // params [sid_live; authenticated]
 	ECreate     = 9  // params [zero_used; next; free ids...]
 	ELcpRecv    = 10 // params [state; last_id]
 	EIpcpRecv   = 11 // params [state; last_id]
@@ -83,7 +83,7 @@ const (
 )
 
 func ok(rows ...[]uint64) Out { return Out{Class: COk, Rows: rows} }
-func errOut() Out            { return Out{Class: CErr} }
+func errOut() Out             { return Out{Class: CErr} }
 
 func b2r(b []byte) []uint64 {
 	r := make([]uint64, len(b))
@@ -168,6 +168,11 @@ func waitFrames(sock *pppoe.VerifC09Socket, n int) {
 	}
 }
 
+func hdrBytes(code byte, sid int, payload []byte) []byte {
+	h := &pppoe.PPPoEHeader{VerType: 0x11, Code: code, SessionID: uint16(sid), Length: uint16(len(payload))}
+	return append(h.Serialize(), payload...)
+}
+
 func validPADR() []byte {
 	tags := pppoe.SerializeTags([]pppoe.Tag{{Type: pppoe.TagServiceName, Value: []byte("internet")}, {Type: pppoe.TagACCookie, Value: []byte("0123456789abcdef")}})
 	h := &pppoe.PPPoEHeader{VerType: 0x11, Code: pppoe.CodePADR, Length: uint16(len(tags))}
@@ -175,7 +180,7 @@ func validPADR() []byte {
 }
 
 // newSrv builds a server; with sidLive != 0 one session (id 1) is opened by a valid PADR first.
-func newSrv(sidLive uint64) *srvEnv {
+func newSrv(sidLive uint64, authed bool) *srvEnv {
 	srv, sock, err := pppoe.VerifC09NewServer(pppoe.ServerConfig{Interface: "verif0", ServerIP: "10.0.0.1"}, serverMAC, nop)
 	if err != nil {
 		panic(err)
@@ -186,6 +191,11 @@ func newSrv(sidLive uint64) *srvEnv {
 		waitFrames(sock, 2) // PADS + the asynchronous LCP Configure-Request
 		if srv.VerifC09Sessions().GetSession(uint16(sidLive)) == nil {
 			panic("setup: PADR did not create the expected session id")
+		}
+		if authed { // a valid PAP Authenticate-Request (no RADIUS client: accepted)
+			pap := cp(1, 1, []byte{1, 'u', 1, 'p'})
+			srv.VerifC09HandleSession(clientMAC, hdrBytes(0, int(sidLive), append([]byte{0xc0, 0x23}, pap...)))
+			waitFrames(sock, 3)
 		}
 	}
 	e.base = sock.Count()
@@ -243,7 +253,7 @@ func runDiscovery(p []uint64, d, tail []byte, session bool) Out {
 	if len(p) > 0 {
 		sid = p[0]
 	}
-	e := newSrv(sid)
+	e := newSrv(sid, len(p) > 1 && p[1] != 0)
 	in := withTail(d, tail)
 	return guarded(5*time.Second, func() Out {
 		before := e.sock.Count()
@@ -586,8 +596,13 @@ func (s *memStore) PutSession(x *ha.SessionState) error {
 	s.mu.Unlock()
 	return nil
 }
-func (s *memStore) DeleteSession(id string) error { s.mu.Lock(); delete(s.m, id); s.mu.Unlock(); return nil }
-func (s *memStore) GetSessionCount() int          { return len(s.m) }
+func (s *memStore) DeleteSession(id string) error {
+	s.mu.Lock()
+	delete(s.m, id)
+	s.mu.Unlock()
+	return nil
+}
+func (s *memStore) GetSessionCount() int { return len(s.m) }
 
 func runSse(d []byte) Out {
 	body := append([]byte(nil), d...)
@@ -656,8 +671,22 @@ func runAlg(e int, d []byte) Out {
 // implOnlyMode is set while the driver sweeps inputs on the implementation only.
 var implOnlyMode bool
 
+// what the driver is executing right now (read by the watchdog in main.go)
+var curMu sync.Mutex
+var curDesc *Desc
+var curSince time.Time
+
 // Call runs entry e of the real code on (params, d, tail).
 func Call(e int, p []uint64, d, tail []byte) Out {
+	curMu.Lock()
+	curDesc = &Desc{E: e, P: p, D: append([]byte(nil), d...), T: append([]byte(nil), tail...)}
+	curSince = time.Now()
+	curMu.Unlock()
+	defer func() { curMu.Lock(); curDesc = nil; curMu.Unlock() }()
+	return call1(e, p, d, tail)
+}
+
+func call1(e int, p []uint64, d, tail []byte) Out {
 	switch e {
 	case EDiscovery:
 		return runDiscovery(p, d, tail, false)
@@ -680,8 +709,8 @@ func Call(e int, p []uint64, d, tail []byte) Out {
 	return protect(func() Out { return callPure(e, in) })
 }
 
-// callPure: the stateless decoders (cheap: no goroutine, no timeout; they contain no unbounded loop
-// that does not consume input, and a hang would stall the driver, which the check reports).
+// callPure: the stateless decoders, called on the driver's own goroutine (no per-call goroutine);
+// the watchdog in main.go turns a call that does not return within 10 s into a HANG case.
 func callPure(e int, in []byte) Out {
 	switch e {
 	case EHeader:
